@@ -249,6 +249,7 @@ fn history_pair(ctx: &mut Ctx, rng: &mut Rng, rf: Rf) {
     }
     if compared > 0 {
         ctx.count(&format!("history_ok.{name}"));
+        ctx.sample(|| format!("history pair: {} vs history B {} -> {compared} outputs with the window inside the common suffix agree", desc(rf, be, &enc_f64(&xa), &enc_f64(&ya), w, mp), fmt_series(&xb)));
         ctx.count_n("history_positions", compared);
         ctx.distinct(&format!("hist|{name}|{be:?}|{hl}|{sl}|{w}|{mp:?}|{exact}"));
     }
